@@ -598,33 +598,14 @@ func init() {
 		Doc: "tag-name delimiters agree with HTML: where the formatter decides which fragment context a leading table-scoped tag needs, the characters accepted after the tag name include every HTML tag-name terminator it can meet in a template — space, tab, newline, `>` and `/` — so that a tag whose attributes start on the next line is still parsed in table context",
 		Run: func(p *Prog, c *Ctx) {
 			fn := p.MustFn("formatter.fragmentContext")
+			// the characters the function compares the byte after the tag name with — as `==` on the accepting
+			// way or `!=` on the rejecting one, one by one or as a constant set
 			have := map[byte]bool{}
-			eachInstr(fn, func(in ssa.Instruction) {
-				if b, ok := in.(*ssa.BinOp); ok && b.Op == token.EQL {
-					if k, ok := constInt(b.Y); ok && k > 0 && k < 128 {
-						if bt, ok := b.X.Type().Underlying().(*types.Basic); ok && bt.Kind() == types.Uint8 {
-							have[byte(k)] = true
-						}
-					}
+			for r := range comparedChars(fn) {
+				if r > 0 && r < 128 {
+					have[byte(r)] = true
 				}
-				if site, ok := in.(ssa.CallInstruction); ok {
-					n := calleeName(site.Common())
-					if n == "strings.ContainsAny" || n == "strings.IndexAny" || n == "strings.ContainsRune" || n == "strings.IndexByte" || n == "strings.IndexRune" || n == "bytes.IndexByte" || n == "bytes.ContainsAny" || n == "bytes.IndexAny" {
-						// the set of accepted characters is a constant: the second argument of ContainsAny(s, set), or the
-						// haystack of IndexByte(set, c)
-						for _, a := range site.Common().Args {
-							if cv, ok := a.(*ssa.Convert); ok {
-								a = cv.X
-							}
-							if s, ok := constString(a); ok {
-								for i := 0; i < len(s); i++ {
-									have[s[i]] = true
-								}
-							}
-						}
-					}
-				}
-			})
+			}
 			var missing []string
 			for _, ch := range []byte{' ', '\t', '\n', '>', '/'} {
 				if !have[ch] {
@@ -838,7 +819,7 @@ func valueSources(p *Prog, v ssa.Value) []string {
 			return
 		}
 		seen[v] = true
-		for _, o := range p.origins(v, OriginOpts{}) {
+		for _, o := range p.originsThroughCallers(v, OriginOpts{}, 2) {
 			switch x := o.(type) {
 			case *ssa.Const:
 				set["const"] = true
